@@ -941,6 +941,15 @@ class RTCSctpTransport(AsyncIOEventEmitter):
             self._flight_size_decrease(ochunk)
             if ochunk.flags & SCTP_DATA_LAST_FRAG:
                 break
+        else:
+            # the rest of the message has not been sent yet: abandon it as
+            # well, otherwise the peer receives fragments it can never use
+            while self._outbound_queue:
+                ochunk = self._outbound_queue.popleft()
+                ochunk._abandoned = True
+                self._sent_queue.append(ochunk)
+                if ochunk.flags & SCTP_DATA_LAST_FRAG:
+                    break
 
         return True
 
@@ -1245,7 +1254,7 @@ class RTCSctpTransport(AsyncIOEventEmitter):
                     highest_newly_acked = schunk.tsn
 
             # strike missing chunks prior to HTNA
-            for schunk in self._sent_queue:
+            for schunk in list(self._sent_queue):
                 if uint32_gt(schunk.tsn, highest_newly_acked):
                     break
                 if schunk.tsn not in seen:
@@ -1543,7 +1552,7 @@ class RTCSctpTransport(AsyncIOEventEmitter):
         self.__log_debug("x T3 expired")
 
         # mark retransmit or abandoned chunks
-        for chunk in self._sent_queue:
+        for chunk in list(self._sent_queue):
             if not self._maybe_abandon(chunk):
                 chunk._retransmit = True
             # nothing is in flight any more, whatever was selectively acknowledged
